@@ -59,8 +59,11 @@ type Obs struct {
 	// Fallbacks: point key -> id of the application's own fallback object that sat in a satisfiable
 	// single-valued point before Run (the container replaces it when it populates the holder).
 	Fallbacks map[string]string `json:"fallbacks,omitempty"`
-	SleptS    int               `json:"sleptS,omitempty"`
-	LoggerSet map[string]bool   `json:"loggerSet,omitempty"`
+	// FactorySeen: per user processor, how many registered components / definition scanners its
+	// component-factory hook found (all of them are registered by then, whatever the order).
+	FactorySeen map[string][2]int `json:"factorySeen,omitempty"`
+	SleptS      int               `json:"sleptS,omitempty"`
+	LoggerSet   map[string]bool   `json:"loggerSet,omitempty"`
 	// LoggerPref: per instance with two logger fields, the prefix of the logger in `Log` (tag
 	// value empty) and in `Log2` (explicit prefix).
 	LoggerPref map[string][2]string `json:"loggerPref,omitempty"`
